@@ -14,8 +14,8 @@
        if isValid && attemptLimit == 0 { panic(...) }             // was: if attemptLimit == 0              (fix)
 
    [Limits.rand_loop] (C03) transcribes the loop BEFORE the fix (panic whenever the counter is 0, no exit when
-   nothing is left); proposed_fixes/C19-1-*.coq.diff brings Limits.v in line.  Until that patch is applied the
-   fixed loop lives here.  Picks are explicit index lists; running out of picks = the loop is still spinning.
+   nothing is left); proposed_fixes/C19-1-*.coq.diff brings Limits.v in line ([rand_loop_fx] is then Limits.rand_loop).
+   This file does not depend on which of the two Limits.v contains.  Picks are explicit index lists; running out of picks = the loop is still spinning.
    No proofs in this file. *)
 From Coq Require Import List ZArith QArith Bool Arith.
 From Crem Require Import Catchment Limits.
@@ -42,6 +42,31 @@ Fixpoint rand_loop_fx (d : dataset) (dir : bool) (picks : list nat) (attempts : 
             let s2 := if v then s1 else initialising_set d s1 i (negb dir) false in
             rand_loop_fx d dir ps a' v s2
       end
+  end.
+
+(* the loop as it was BEFORE fix C19-1 (panic whenever the counter is 0 when the loop is left; no exit when nothing is left to
+   toggle) -- the defect D14b; kept here, independently of Limits.v, for the theorems that state what was wrong *)
+Fixpoint rand_loop_old (d : dataset) (dir : bool) (picks : list nat) (attempts : nat) (valid : bool) (s : state) : lres :=
+  match attempts with
+  | O => LPanic
+  | S a' =>
+      if negb valid then LOk s else
+      match picks with
+      | [] => LOutOfPicks
+      | i :: ps =>
+          if Bool.eqb (st_active s i) dir then rand_loop_old d dir ps attempts valid s
+          else
+            let s1 := initialising_set d s i dir true in
+            let v := change_is_valid d s1 in
+            let s2 := if v then s1 else initialising_set d s1 i (negb dir) false in
+            rand_loop_old d dir ps a' v s2
+      end
+  end.
+
+Definition randomize_old (d : dataset) (picks : list nat) (s : state) : lres :=
+  match d_limit d with
+  | Some (k, _) => rand_loop_old d (loop_dir k) picks (nactions d) true s
+  | None => LOk s
   end.
 
 (* CoreModel.Randomize under a limit *)
